@@ -126,8 +126,10 @@ func DHTGet(params DHTGetParams) (*DHTGetResult, error) {
 			log.Println(err)
 			return nil, true
 		}
+		if res.NumResponded == 0 || DistanceLt(params.Key, node.ID[:], res.Closest[:]) {
+			res.Closest = node.ID
+		}
 		res.NumResponded++
-		res.Closest = node.ID
 		if resp.Value != nil && params.Validate(resp.Value) {
 			res.Value = resp.Value
 			res.From = node.ID
@@ -177,10 +179,10 @@ func DHTPut(params DHTPutParams) (*DHTPutResult, error) {
 		}
 		res.Responded++
 		if resp.Accepted {
-			res.Accepted++
-			if DistanceLt(params.Key, node.ID[:], res.Closest[:]) {
+			if res.Accepted == 0 || DistanceLt(params.Key, node.ID[:], res.Closest[:]) {
 				res.Closest = node.ID
 			}
+			res.Accepted++
 		}
 		return resp.Closer, true
 	})
